@@ -100,7 +100,7 @@ def rules():
         Rule("R7", "s . len ( ) . try_into ( ) . context ( $m ) ?", "usize_to_i32 ( str_len ( s ) ) ?", why="usize -> i32 conversion"),
         Rule("R9", "let len = v . len ( ) ;", "let len = str_len ( v ) ;", why="str::len"),
         Rule("R9", "$s . get ( $a .. $b ) . with_context ( $$c ) ?", "opt_ctx ( str_get ( $s , $a , $b ) ) ?", why="str::get(range): None instead of a panic"),
-        Rule("R9", "( s . get ( .. $b ) , s . get ( $a .. ) )", "( str_get_to ( s , $b ) , str_get_from ( s , $a ) )", why="str::get(range)"),
+        Rule("R9", "( s . get ( .. $$b ) , s . get ( $$a .. ) )", "( str_get_to ( s , $$b ) , str_get_from ( s , $$a ) )", why="str::get(range)"),
         Rule("R8", "s [ $a .. $b ]", "str_index ( s , $a , $b )", why="slice indexing with its panic precondition"),
         Rule("R8", "& s [ .. $b ]", "& str_index_to ( s , $b )", why="slice indexing with its panic precondition"),
         Rule("R8", "& s [ $a .. ]", "& str_index_from ( s , $a )", why="slice indexing with its panic precondition"),
